@@ -1492,3 +1492,22 @@ MUTANTS += [
  dict(id='F77-benign-flush-bound-by-total-chunks', props=['C06', 'C05'], expect='SILENT',
       edits=[(SC, '\tfor _, u := range s.unconfirmed {\n\t\tif int(u/8) < len(bitmap) {\n\t\t\tbitmap[u/8] &^= 1 << (u % 8)\n\t\t}\n\t}\n', '\tfor _, u := range s.unconfirmed {\n\t\tif u < s.TotalChunks && int(u/8) < len(bitmap) {\n\t\t\tbitmap[u/8] &^= 1 << (u % 8)\n\t\t}\n\t}\n')]),
 ]
+
+# --- F78 (the wait for room in the acknowledgement queue ends with the control stream) ---
+_QC = '\t\tselect {\n\t\tcase controlWriteCh <- msg:\n\t\t\treturn nil\n\t\tcase <-recvCtx.Done():\n\t\t\treturn recvCtx.Err()\n\t\tcase <-controlEnded:\n\t\t\treturn nil\n\t\t}\n'
+MUTANTS += [
+ dict(id='F78-undo-ended-arm', props=['C15', 'C02'], expect='R-ACK-QUEUE-NOT-BEHIND-END/ack-queue/queue/',
+      edits=[(MS, _QC, '\t\tselect {\n\t\tcase controlWriteCh <- msg:\n\t\t\treturn nil\n\t\tcase <-recvCtx.Done():\n\t\t\treturn recvCtx.Err()\n\t\t}\n')]),
+ dict(id='F78-close-only-when-error-was-taken', props=['C15'], expect='R-ACK-QUEUE-NOT-BEHIND-END/ack-queue/',
+      edits=[(MS, '\t\t\t\tselect {\n\t\t\t\tcase controlErr <- err:\n\t\t\t\tdefault:\n\t\t\t\t}\n\t\t\t\tclose(controlEnded)\n\t\t\t\treturn\n', '\t\t\t\tselect {\n\t\t\t\tcase controlErr <- err:\n\t\t\t\t\tclose(controlEnded)\n\t\t\t\tdefault:\n\t\t\t\t}\n\t\t\t\treturn\n')]),
+ dict(id='F78-close-only-on-eof', props=['C15'], expect='R-ACK-QUEUE-NOT-BEHIND-END/ack-queue/',
+      edits=[(MS, '\t\t\t\tclose(controlEnded)\n\t\t\t\treturn\n', '\t\t\t\tif errors.Is(err, io.EOF) {\n\t\t\t\t\tclose(controlEnded)\n\t\t\t\t}\n\t\t\t\treturn\n')]),
+ dict(id='F78-finalize-sends-directly', props=['C15', 'C02'], expect='R-ACK-QUEUE-NOT-BEHIND-END/ack-queue/queue/transfer.RecvManifestMultiStream$finalizeFile',
+      edits=[(MS, '\t\t_ = queueControl(controlMsg{done: &FileDone{\n\t\t\tStreamID: state.key,\n\t\t\tOK:       ok,\n\t\t\tErrMsg:   errMsg,\n\t\t}})\n', '\t\tselect {\n\t\tcase controlWriteCh <- controlMsg{done: &FileDone{\n\t\t\tStreamID: state.key,\n\t\t\tOK:       ok,\n\t\t\tErrMsg:   errMsg,\n\t\t}}:\n\t\tcase <-recvCtx.Done():\n\t\t}\n')]),
+ dict(id='F78-benign-no-first-attempt', props=['C15', 'C02', 'C03', 'C01'], expect='SILENT',
+      edits=[(MS, '\t\tselect {\n\t\tcase controlWriteCh <- msg:\n\t\t\treturn nil\n\t\tdefault:\n\t\t}\n\t\tselect {\n\t\tcase controlWriteCh <- msg:\n\t\t\treturn nil\n\t\tcase <-recvCtx.Done():', '\t\tselect {\n\t\tcase controlWriteCh <- msg:\n\t\t\treturn nil\n\t\tcase <-recvCtx.Done():')]),
+ dict(id='F78-benign-ended-arm-returns-an-error', props=['C15', 'C02', 'C03', 'C01'], expect='SILENT',
+      edits=[(MS, '\t\tcase <-controlEnded:\n\t\t\treturn nil\n\t\t}\n', '\t\tcase <-controlEnded:\n\t\t\treturn io.ErrClosedPipe\n\t\t}\n')]),
+ dict(id='R11-benign-ack-write-error-not-fatal', props=['C15', 'C02', 'C03', 'C01'], expect='SILENT',
+      edits=[(MS, '\t\t}\n\t}\n\tgo func() {\n\t\tfor {\n\t\t\tselect {\n\t\t\tcase <-recvCtx.Done():\n\t\t\t\treturn\n\t\t\tcase msg := <-controlWriteCh:\n\t\t\t\tif msg.done != nil {\n\t\t\t\t\tif err := writeFileDone(controlStream, *msg.done); err != nil {\n\t\t\t\t\t\tsetRecvErr(err)\n\t\t\t\t\t\treturn\n', '\t\t}\n\t}\n\tgo func() {\n\t\tfor {\n\t\t\tselect {\n\t\t\tcase <-recvCtx.Done():\n\t\t\t\treturn\n\t\t\tcase msg := <-controlWriteCh:\n\t\t\t\tif msg.done != nil {\n\t\t\t\t\tif err := writeFileDone(controlStream, *msg.done); err != nil {\n\t\t\t\t\t\treturn\n')]),
+]
